@@ -36,6 +36,23 @@ def configurations(pid, tier, seed):
     raise KeyError(pid)
 
 
+def zero_input_unit(beh):
+    """Does some input-layer unit evaluate to exactly zero at some point of the domain?"""
+    from . import nums  # pylint: disable=import-outside-toplevel
+    for l, m in zip(beh["layers"], beh["store"]):
+        if l["kind"] in ("emb", "catp", "catl", "const", "clog", "binom"):
+            if any(int(e[0][0]) == 0 and int(e[1][0]) == 0 for row in m for e in row):
+                return True
+        elif l["kind"] == "poly":
+            for row in m:
+                for x in range(beh["dom"][l["var"] - 1]):
+                    re = sum(nums.dy(c[0]) * x ** d for d, c in enumerate(row))
+                    im = sum(nums.dy(c[1]) * x ** d for d, c in enumerate(row))
+                    if re == 0 and im == 0:
+                        return True
+    return False
+
+
 def signature(beh, f):
     used = {j for l in beh["layers"] for j in l["ins"]}
     flags = f.get("flags") or [None, None, None]
@@ -48,6 +65,8 @@ def signature(beh, f):
         "ops": [t["op"] for t in beh["ops"]],
         "interior_output": any(o in used for o in beh["outs"]),
         "nouts": len(beh["outs"]),
+        "nan": bool(f.get("nan")),
+        "zero_input_unit": zero_input_unit(beh),
     }
 
 
